@@ -268,6 +268,7 @@ uint64_t vf_free_count() { return g_free_count; }
 // std::thread model for replay (linked with --wrap): starting a std::thread only records it, exactly
 // as in the solver model; its body is run by the harness's model thread n (n-th started thread).
 static uint64_t g_std_threads_started;
+__attribute__((no_sanitize("undefined")))  // the state is destroyed through a stand-in polymorphic type
 void __wrap__ZNSt6thread15_M_start_threadESt10unique_ptrINS_6_StateESt14default_deleteIS1_EEPFvvE(
     void* thr, void** state_uptr, void*) {
   *(uint64_t*)thr = ++g_std_threads_started;
